@@ -102,6 +102,8 @@ func VerifHarness_C11_lru() {
 	nops := verifBound(4, 5)
 	var objs [8]*SessionState
 	nobj := 0
+	var held *SessionState // the session a lookup handed out (as to a handshake that is still running)
+	heldTag := 0
 	for i := 0; i < nops; i++ {
 		kb := verifNondetByte("k")
 		k := string([]byte{kb})
@@ -128,6 +130,9 @@ func VerifHarness_C11_lru() {
 		case 3: // lookup
 			got, ok := c.Get(k)
 			want := ref.get(kb)
+			if ok && got != nil && want != 0 {
+				held, heldTag = got, want // a handshake keeps using what it was given
+			}
 			if want != 0 {
 				verifReach("hit")
 			} else {
@@ -144,6 +149,11 @@ func VerifHarness_C11_lru() {
 		}
 		verifAssert("C11.lru.sizeBound", c.q.Len() <= capa && len(c.m) == c.q.Len())
 		verifAssert("C11.lru.sizeMatchesReference", c.q.Len() == ref.n)
+	}
+	// a session handed out by a lookup stays intact whatever happens to the cache afterwards (eviction and deletion
+	// wipe the cache's own copy only): "never changes a session that is in use by a handshake"
+	if held != nil {
+		verifAssert("C11.lru.handedOutSessionUnaffectedByLaterOperations", len(held.masterSecret) == 48 && int(held.masterSecret[0]) == heldTag && int(held.masterSecret[47]) == heldTag)
 	}
 	// final sweep: every key the reference holds is found with its latest, intact value (most recent first,
 	// so the sweep itself does not disturb what it checks)
